@@ -121,8 +121,8 @@ Definition time_jump_fn (unit_ns : N) (narrow32 : bool) (a x : list val) (h : he
   match a with
   | [n] =>
     do v <- (if narrow32 then conv_u32 n else conv_u64 n);
-    do ns <- cmul two64 "time.rs jump: multiply overflow" v unit_ns;
-    Ok (VTimeJump ns, h)
+    (* checked_mul(..).ok_or(RuntimeError) *)
+    if v * unit_ns <? two64 then Ok (VTimeJump (v * unit_ns), h) else Err ERuntime
   | _ => bad_args
   end.
 
